@@ -6,7 +6,7 @@ PROP, LEVEL = 'C02', 'exploration'
 
 
 def make_cases(tier, seed):
-    n = 500 if tier == 'quick' else 8000
+    n = 1200 if tier == 'quick' else 10000
     cases = []
     for i in range(n):
         r = gen.seeded(seed, 'C02', i)
